@@ -180,8 +180,16 @@ impl Drop for DropGuard<'_> {
 impl Drop for Park {
     fn drop(&mut self) {
         // wait the kernel finish
-        while self.wait_kernel.load(Ordering::Acquire) {
-            yield_now();
+        if self.wait_kernel.load(Ordering::Acquire) {
+            // a drop must not be a cancellation point: the blocker is dropped at the end
+            // of a blocking call that may have just acquired a lock or a permit for the
+            // caller, a Cancel panic out of `yield_now` would leak it for ever. a pending
+            // cancel is delivered at the next cancellation point of the coroutine.
+            // (while unwinding `yield_now` never panics, there is nothing to mask)
+            let _g = (!std::thread::panicking()).then(crate::cancel::CancelDisableGuard::new);
+            while self.wait_kernel.load(Ordering::Acquire) {
+                yield_now();
+            }
         }
 
         self.set_timeout_handle(None);
